@@ -18,6 +18,9 @@ def tasks(tier, seed):
                 if n >= 2 and (n, K) in ((2, 2), (2, 3), (3, 2), (3, 3)):
                     t.append(("contracts.gemini_eval", "task", (cls, ovo, n, K, "C02", "clipped", seed), to,
                               f"{cls}[{'ovo' if ovo else 'ova'},{n}x{K},clipped]"))
+                if (n, K) in ((2, 2), (2, 3)):
+                    t.append(("contracts.gemini_eval", "task", (cls, ovo, n, K, "C02", "clipped-sym", seed), to,
+                              f"{cls}[{'ovo' if ovo else 'ova'},{n}x{K},clipped-sym]"))
     return t
 
 
